@@ -7,6 +7,10 @@ def commits():
     return [l.split()[0] for l in out.splitlines() if l.split(" ", 1)[1].startswith("verif hooks:")]
 
 CLAIMED = {
+ "C16": dict(cat="exploration", ref="DESIGN.md §3 C16", text="wip", note="wip", tech="deterministic simulation"),
+ "C10": dict(cat="exploration", ref="DESIGN.md §3 C10", text="wip", note="wip", tech="deterministic simulation"),
+ "C09": dict(cat="exploration", ref="DESIGN.md §3 C09", text="wip", note="wip", tech="deterministic simulation"),
+ "C01": dict(cat="exploration", ref="DESIGN.md §3 C01", text="wip", note="wip", tech="deterministic simulation"),
  "C14": dict(cat="exploration", ref="DESIGN.md §3 C14",
    text="Seeded search over decode-completion orders and poll placements with the engine's real decode threads parked at a gate and released one at a time; the canonical schedule space for k<=3 images (33 561 schedules, <=2 polls per gap) is swept completely by run index, larger k sampled. Oracles: rectangularity and declared-raster-size on every decode, arrival-order/shadowing reference model after every poll, no delivery of unfinished decodes, exactly-once, poll never blocks (5 s watchdog, confirmed by solo replay), bounded liveness after all releases. Sampling, not proof.",
    note="Trusts: the gate hook (cfg icy_engine_verif) parks a decode before it reads its payload; the reference image of an arrival is computed by calling the real Sixel::parse_from synchronously; font cell is 8x16 in these runs. 'Never blocks' is a 5 s wall-clock judgement on a microsecond call.",
